@@ -172,6 +172,9 @@ def main(tier, seed):
                 e["supexpr"] = None
                 e["abstract"] = False
             S.entity(ns[-1])["supers"] = ns[:3]
+            # two unrelated supertypes declare an attribute of the same name (of different types)
+            S.entity(ns[0])["attrs"].append({"name": "same_nm", "type": "INTEGER", "optional": False})
+            S.entity(ns[2])["attrs"].insert(0, {"name": "same_nm", "type": "STRING", "optional": True})
             if len(ns) >= 6:
                 S.entity(ns[-2])["supers"] = [ns[3], ns[1], ns[0], ns[2]]
         text = G.render(S)
